@@ -23,7 +23,7 @@ ASSUMPTIONS = [
 
 PROBE = "PrObE"
 DEFAULTS = ["v0", 11, "v2", 13, "v4", 15]
-NSK = 13
+NSK = 14
 
 
 class _Color(Enum):
@@ -72,8 +72,9 @@ def build(sk, d, V):
         from pypika_tortoise import AliasedQuery
         return (Q.with_(cte, "c").into(t).from_(AliasedQuery("c")).select(Field("k"), fn.Coalesce(Field("j"), V[1])).where(Field("k") > V[2])), 3
     if sk == 10:  # several values inside one arithmetic expression, both operands compound
-        expr = ((t.a + V[0]) * (t.b - V[1])) / (V[2] + t.c)
-        return Q.from_(t).select(expr.as_("e")).where(t.d + V[3] > V[4] - t.e), 5
+        # (reflected operators called directly: a symbolic str on the left raises instead of returning NotImplemented)
+        expr = ((t.a + V[0]) * (t.b - V[1])) / t.c.__radd__(V[2])
+        return Q.from_(t).select(expr.as_("e")).where(t.d + V[3] > t.e.__rsub__(V[4])), 5
     if sk == 11:  # aliased select terms with values, DISTINCT, ORDER BY an aliased term of the select list; a set
         # operation ordered by an aliased select term
         x = fn.Coalesce(t.a, V[0]).as_("x")
@@ -86,6 +87,9 @@ def build(sk, d, V):
         q = Q.from_(t).select(fn.Coalesce(t.a, V[1]), -(t.b + V[2]))
         q = q.distinct_on(fn.Coalesce(t.g, V[0])) if d == 2 else q.distinct().where(t.g == V[0])
         return q.where(~((t.c == V[3]) | (t.d != V[4]))), 5
+    if sk == 13:  # aliased array of values, array holding a term, array as comparison operand
+        return (Q.from_(t).select(Array(V[0], V[1]).as_("x"), Array(t.a, V[2]).as_("y"))
+                .where(t.b == Array(V[3], 7)).where(t.c != V[4])), 5
     raise AssertionError(sk)
 
 
@@ -338,7 +342,7 @@ def check(name, sk, d, slot, v, exempt, args):
     timeout={"quick": 120, "thorough": 900},
     witness=[dict(sk=0, d=2, slot=0, s="x'"), dict(sk=2, d=2, slot=1, s="ab"), dict(sk=4, d=1, slot=3, s="*"),
              dict(sk=7, d=2, slot=1, s="q")],
-    doc="13 skeletons x 6 dialect classes x value slot; the chosen slot holds any string (len<=L), the others distinct "
+    doc="14 skeletons x 6 dialect classes x value slot; the chosen slot holds any string (len<=L), the others distinct "
         "concrete values; '*' is the documented exemption",
 )
 def c04_str(sk: int, d: int, slot: int, s: str) -> int:
